@@ -40,6 +40,24 @@ def stepC07 (fields : List String) : Option String :=
       | .ok t => pure ("ok:" ++ encodeText t)
       | .error .commentCreate => pure "err:create"
       | .error .missingInfo => pure "err:missing"
+  | ["c07ach", style, flags, cpr, con, lic] => do
+      -- hypotheses of C07_default_achievable on this case (default template), and what the model returns
+      let st ← findStyle style
+      let c := mkCfg st flags defaultRender []
+      let info : Extracted := ⟨← decodeList lic, ← decodeList cpr, ← decodeList con⟩
+      let (why, hyp) :=
+        if c.commented then ("t", false)
+        else match Spec.lineMode st c.forceMulti with
+          | none => ("m", false)
+          | some m =>
+            if !Spec.styleReadable st m then ("s", false)
+            else if !Spec.wfRequest Generated.endRe st m info then ("r", false)
+            else ("+", true)
+      let res := match createNewHeader c info with
+        | .ok t => "ok:" ++ encodeText t
+        | .error .commentCreate => "err:create"
+        | .error .missingInfo => "err:missing"
+      pure ("H" ++ encodeBool hyp ++ "|" ++ why ++ "|" ++ res)
   | ["c07file", style, flags, tmpl, cpr, con, lic, bad, t] => do
       -- hypotheses and conclusion of C07_file_partial on this case
       let render : RInfo → Text ←
@@ -67,7 +85,21 @@ def stepC07 (fields : List String) : Option String :=
         let old := Spec.oldHeader c replace (Py.replace text ['\n'] ['\n'])
         let concl := Spec.declaresB c.normLic (extractRaw out) info.cpr info.lic &&
           (old.isEmpty || Spec.declaresB c.normLic (extractRaw out) (extractRaw old).cpr (extractRaw old).lic)
-        pure ("H" ++ encodeBool (hyp0 && hypTags) ++ "|C" ++ encodeBool concl ++ "|P" ++ encodeList (extractRaw old).cpr ++ "|L" ++
+        -- C07_file: the header block alone is a block of closed lines; C07_file_window: … and the written text up to the
+        -- end of the block fits into lint's window
+        let hypClosed := match Spec.headerParts c replace info (Py.replace text ['\n'] ['\n']) with
+          | .ok p => Spec.tagLinesClosed Generated.endRe p.1
+          | .error _ => false
+        let seen := decodedText (window (encodeUtf8 out))
+        let hypFit := match Spec.headerParts c replace info (Py.replace text ['\n'] ['\n']) with
+          | .ok p => decide ((encodeUtf8 (Spec.headPart p.1 p.2.1)).length ≤ 4096) && !(Spec.headPart p.1 p.2.1).contains '\r'
+          | .error _ => false
+        let hypWin := !c.merge && detectLineEnding text == ['\n'] && hypClosed && hypFit && Spec.noIgnoreStart seen
+        let conclWin := Spec.declaresB c.normLic (extractRaw seen) info.cpr info.lic &&
+          (old.isEmpty || Spec.declaresB c.normLic (extractRaw seen) (extractRaw old).cpr (extractRaw old).lic)
+        pure ("H" ++ encodeBool (hyp0 && hypTags) ++ "|C" ++ encodeBool concl ++
+              "|K" ++ encodeBool (hyp0 && hypClosed) ++ "|F" ++ encodeBool hypWin ++ "|D" ++ encodeBool conclWin ++
+              "|P" ++ encodeList (extractRaw old).cpr ++ "|L" ++
               encodeList (extractRaw old).lic ++ "|W:" ++ encodeText (if bom then bomChar :: out else out))
       | _ => pure "-"
   | ["c09step", style, flags, tmpl, cpr, con, lic, bad, t] => do
